@@ -3,7 +3,7 @@ import MJ.Model.Slice
 /-!
 # Hand model of the VM sites that consult the undefined behaviour (vm/mod.rs `eval_impl`)
 
-`step m i s = modeGuard m i s >>= fun _ => exec i s`:
+`step m i s = modeGuard m i s >>= fun _ => exec i s` (`Emit` apart: `stepEmit`):
 
 * `modeGuard` is the **only** place where the mode is consulted; it is a sequence of calls to the
   table-interpreted helpers of `MJ.Undef` on the kinds of the operands, in the order in which
@@ -305,8 +305,12 @@ structure St where
   /-- output chunks, newest first; one list per open capture (innermost first) -/
   outs : List (List String) := [[]]
   ctx : List (String × V) := []
-  /-- `Environment::set_formatter` was used (Emit goes through `Environment::format`) -/
-  customFormatter : Bool := false
+  /-- 0 = default formatter; otherwise `Environment::set_formatter` was used and `Emit` goes through
+      `Environment::format`: 1 = a formatter delegating to `escape_formatter`, 2 = one that makes
+      every value visible (undefined → `U`, none → `N`), 3 = a delegating one counting its calls -/
+  formatter : Nat := 0
+  /-- number of times the custom formatter was invoked -/
+  fmtCalls : Nat := 0
 
 namespace St
 def lookupFrames : List Frame → String → Option V
@@ -331,6 +335,10 @@ def output (s : St) : String :=
   match s.outs.getLast? with
   | some o => String.join o.reverse
   | Option.none => ""
+
+/-- what the harness observes: the output, plus the call count for the counting formatter -/
+def observed (s : St) : String :=
+  if s.formatter = 3 then s.output ++ "#" ++ toString s.fmtCalls else s.output
 
 def next (s : St) : St := { s with pc := s.pc + 1 }
 end St
@@ -502,7 +510,6 @@ def cmpExec (op : CmpOp) (lhs rhs : V) : Except Err Bool :=
     A stack that is too short is left to `exec` to report. -/
 def modeGuard (m : Mode) (i : Instr) (s : St) : Except Err Unit :=
   match i, s.stack with
-  | .emit, v :: _ => if s.customFormatter then envFormatChk m v.kind else emitChk m v.kind
   | .getAttr n, a :: _ =>
       match V.getAttr a n with
       | some _ => .ok ()
@@ -544,7 +551,6 @@ def buildMapFrom (acc : List (String × V)) : List V → Option (List (String ×
 def exec (i : Instr) (s : St) : Except Err St :=
   match i, s.stack with
   | .emitRaw t, _ => .ok (s.write t).next
-  | .emit, v :: r => .ok ({ s with stack := r }.write (V.display v)).next
   | .storeLocal n, v :: r =>
       match s.frames with
       | f :: fr => .ok { s with stack := r, frames := { f with locals := (n, v) :: f.locals.filter (fun p => p.1 != n) } :: fr }.next
@@ -646,11 +652,44 @@ def exec (i : Instr) (s : St) : Except Err St :=
   | .unsupported n, _ => .error (.unsupported ("instruction " ++ n))
   | _, _ => .error .stack
 
+/-- what the harness' custom formatters write for a value -/
+def fmtDisplay (formatter : Nat) (v : V) : String :=
+  if formatter = 2 then
+    match v with
+    | .undef | .silent => "U"
+    | .none => "N"
+    | v => V.display v
+  else V.display v
+
+/-- the value `v` is written: by `write_escaped` (default formatter) or by the custom formatter -/
+def St.emitVia (s : St) (r : List V) (v : V) : St :=
+  if s.formatter = 0 then ({ s with stack := r }.write (V.display v)).next
+  else ({ s with stack := r, fmtCalls := s.fmtCalls + 1 }.write (fmtDisplay s.formatter v)).next
+
+/-- `Instruction::Emit`: the default formatter tests `strict_undefined` inline, a custom one goes
+    through `Environment::format`, which fails, hands the value to the formatter, or (no such row
+    in the pinned source) returns without calling it -/
+def stepEmit (m : Mode) (s : St) : Except Err St :=
+  match s.stack with
+  | v :: r =>
+    if s.formatter = 0 then
+      match emitChk m v.kind with
+      | .error e => .error e
+      | .ok _ => .ok (s.emitVia r v)
+    else
+      match envFormat m v.kind with
+      | .error e => .error e
+      | .ok true => .ok (s.emitVia r v)
+      | .ok false => .ok { s with stack := r }.next
+  | [] => .error .stack
+
 /-- one instruction of `eval_impl` -/
 def step (m : Mode) (i : Instr) (s : St) : Except Err St :=
-  match modeGuard m i s with
-  | .error e => .error e
-  | .ok _ => exec i s
+  match i with
+  | .emit => stepEmit m s
+  | i => match modeGuard m i s with
+    | .error e => .error e
+    | .ok _ => exec i s
 
 /-- the VM as an instance of the abstract machine: the instruction is fetched by `pc` -/
 def vm (code : Array Instr) : Machine St Err where
